@@ -769,13 +769,12 @@ pub fn run(tier: Tier) -> RunOutcome {
                     probe("c08_fresh_panic");
                     continue;
                 };
-                // construction caps b at the infinity bound, update_b does not; when an
-                // update put an "infinite" value into b the two solvers legitimately hold
-                // different numbers, so only verdict/objective are compared
-                let infinite_b = model.b.iter().any(|v| *v > bound * (1.0 - 10.0 * f64::EPSILON));
-                if infinite_b {
+                // an update that puts an "infinite" value into b is capped like at construction
+                // (repaired defect F11), so nothing is relaxed for it
+                if model.b.iter().any(|v| *v >= bound) {
                     probe("c08_infinite_b_after_update");
                 }
+                let infinite_b = false;
                 let failed = |s: SolverStatus| {
                     matches!(s, SolverStatus::NumericalError | SolverStatus::InsufficientProgress)
                 };
@@ -1036,7 +1035,9 @@ pub fn run(tier: Tier) -> RunOutcome {
                                     Part::P => s2.p = alt,
                                     Part::Q => s2.q = alt,
                                     Part::A => s2.a = alt,
-                                    Part::B => s2.b = alt,
+                                    // entries at or above the bound in force at construction are
+                                    // capped, by an update as by the constructor (C09)
+                                    Part::B => s2.b = alt.iter().map(|v| v.min(bound)).collect(),
                                 }
                                 next.push(s2);
                             }
